@@ -124,3 +124,19 @@ theorem lyds_run_ok (ops : List (RbOp α)) : ∀ (st : Lyds α × List α), Lyds
 end
 
 end LyModel.Sib.Rb
+
+namespace LyModel.Sib
+
+/-- the comparison the sibling-list model orders system-ordered instances by (`Key.le`, i.e. the type plugin's `sort`
+    callback), as `rb_compare(d, x) > 0` -/
+def keyGt (d x : Node) : Bool := !(d.key.le x.key)
+
+theorem keyGt_trans (a b c : Node) : keyGt a b = false → keyGt b c = false → keyGt a c = false := by
+  simp only [keyGt, Bool.not_eq_false']
+  exact Key.le_trans a.key b.key c.key
+
+theorem keyGt_total (a b : Node) : keyGt a b = false ∨ keyGt b a = false := by
+  simp only [keyGt, Bool.not_eq_false']
+  exact Key.le_total a.key b.key
+
+end LyModel.Sib
